@@ -275,6 +275,7 @@ func (r *Runner) monC05(s *Step, rep *Reply) {
 		r.Violate("C05", "pending", how, "after %s: %d container(s) still have undelivered changes: %v", how, len(p), keys)
 	}
 	nontriv := false
+	var hold map[string]string
 	for _, c := range r.LiveCtrs() {
 		if r.NoShadow {
 			break
@@ -312,7 +313,16 @@ func (r *Runner) monC05(s *Step, rep *Reply) {
 			diffs = append(diffs, fmt.Sprintf("swap cache=%d runtime=%d", cr.Swap, sh.Swap))
 		}
 		if len(diffs) > 0 {
-			r.Violate("C05", "view-mismatch", how, "after %s: container %s (%s): %s", how, c.Key, c.State, strings.Join(diffs, "; "))
+			sg := how
+			if hold == nil {
+				hold = r.holders()
+			}
+			if _, held := hold[c.ID]; !held && !(r.Inst.Policy == PolBalloons && (r.cpuPreserveAnn(c) || r.blnPreserveRule(c))) {
+				// KF11: what the cache records for a container the policy could not allocate is not a decision; it can
+				// be older than what the runtime has (e.g. the values saved before the CreateContainer reply)
+				sg += ":unallocated-container"
+			}
+			r.Violate("C05", "view-mismatch", sg, "after %s: container %s (%s): %s", how, c.Key, c.State, strings.Join(diffs, "; "))
 		}
 	}
 	others := 0
